@@ -95,7 +95,8 @@ def run(ctx):
         "vobject parses the generated iCalendar text into the values the model takes as input (tied by the level-1/3 correspondence)",
         "every date-time stays within Python's datetime range (years 1..9999): DATETIME_MIN/MAX are modelled as -/+ infinity",
         "item.time_range of a stored item is find_time_range of its content (cache consistency is C13's subject)",
-        "all values are whole seconds (iCalendar has no fractions); time zones other than UTC / DATE values, RDATE, BYxxx rules and RECURRENCE-ID overrides are outside the grammar",
+        "all values are whole seconds (iCalendar has no fractions); time zones other than UTC / DATE values and BYxxx rules are outside the grammar; RDATE and RECURRENCE-ID override components are modelled for UTC DATE-TIME VEVENTs only (Model/FilterExt.v)",
+        "dateutil's rruleset iteration with vobject's addRDate=True is the ascending, duplicate-free merge of the rule's progression with RDATE (+ DTSTART when there is an RDATE), minus EXDATE: modelled, tied by the ext correspondence only",
     ]
     ctx.prove()
     rng = ctx.rng
@@ -107,8 +108,9 @@ def run(ctx):
                for t, forever in [(["VEVENT", "VTODO", "VJOURNAL"][i % 3], (i // 3) % 3 != 2)]]
     objs = [c[1] for c in corpus] + leading + [X.gen_obj(rng) for _ in range(nobj)]
     ctx.count("object:first-instances-removed-by-EXDATE", len(leading))
-    # beyond the grammar of the Coq model: RDATE, several instances per day, rescheduled instances (RECURRENCE-ID);
-    # these go through the oracle monitors only (no model to diff against)
+    # beyond the base grammar: RDATE, several instances per day, rescheduled instances (RECURRENCE-ID); at function level
+    # they are diffed against the extended model (Model/FilterExt.v: recorded calls, hull, match) AND checked by the
+    # oracle monitors; at REPORT level by the monitors only
     ext = [X.gen_ext_event(rng) for _ in range(ctx.n(70, 900))]
     for o in ext:
         ctx.count("object:ext:%s" % ("+".join(k for k in ("rdate", "overrides") if o.get(k)) + ("+" + o["rec"]["freq"] if o["rec"] else "")))
@@ -264,7 +266,8 @@ def build_filters(variant, comp, r, sp=None):
 
 
 def ext_level(ctx, ext, first_violation):
-    """Objects outside the Coq grammar (RDATE, FREQ=HOURLY with rescheduled instances, ...), function level, against the
+    """Objects of the extended grammar (RDATE, FREQ=HOURLY with rescheduled instances, ...), function level: model-vs-real
+    correspondence (xrecord / xfind_time_range / xtime_range_match of Model/FilterExt.v by vm_compute) and monitors against the
     independent occurrence arithmetic: (a) the visitor hands out exactly the instances of the object, each with its own
     start and end; (b) find_time_range is their hull; (c) time_range_match = the 9.9 tables."""
     rng = ctx.rng
